@@ -1,4 +1,5 @@
 import CandidModel.Basic
+import CandidModel.Gen.Consts
 /-
   Candid types, labels, environments and untyped values (mirror of `types/internal.rs` `TypeInner`,
   `Label`, `TypeEnv`, `types/value.rs` `IDLValue`), plus the spec's field hash.
@@ -16,7 +17,7 @@ inductive FuncMode where
 
 /-- `idl_hash` (`candid/src/lib.rs:310`, copy in `candid_derive/src/lib.rs:40`): u32 wrapping fold. -/
 def idlHashBytes (bs : Bytes) : UInt32 :=
-  bs.foldl (fun s c => s * 223 + c.toUInt32) 0
+  bs.foldl (fun s c => s * Gen.idlHashMul32 + c.toUInt32) 0
 
 def idlHash (s : String) : Nat := (idlHashBytes s.toUTF8.toList).toNat
 
